@@ -1540,7 +1540,7 @@ fn generate(tier: &str, seed: u64) -> Vec<String> {
     }
     // random sequences of <= 25 operations; a light-weight picture of the node steers them
     // towards meaningful sessions and indices (the model decides what really happens)
-    let n_rand = if thorough { 30000 } else { 1500 };
+    let n_rand = if thorough { 30000 } else { 3000 };
     for _ in 0..n_rand {
         let kind = *rng.pick(&[2u8, 2, 2, 1, 3, 4]);
         let pase = rng.chance(4, 5);
